@@ -184,6 +184,20 @@ def inferredP (f : Font) (fu : Nat → Name) (out : List Name) : Bool :=
   (List.range n).all fun i =>
     !(isOrn (out.getD i []) && !early i) || !(f.gsub.any (subDerives early n i))
 
+/-- "inferred from the character map before placeholders": a glyph that ends with a numbered
+placeholder (not its existing name) has no cmap entry whose `FromUnicode` name was still free —
+every such name is empty or is the name of some glyph of the result (names in `used` at the time
+of the cmap pass all remain names of the result) -/
+def cmapFirstP (f : Font) (fu : Nat → Name) (out : List Name) : Bool :=
+  let n := f.outl.numGlyphs
+  match f.cmap with
+  | none => true
+  | some c =>
+    let codes := List.range' c.lo (c.hi + 1 - c.lo)
+    (List.range n).all fun i =>
+      !(isOrn (out.getD i []) && !namedEarly f fu out i) ||
+      codes.all fun code => c.lookup code != i || fu code == [] || out.contains (fu code)
+
 /-- a legal glyph name (Adobe glyph list specification: at most 31 characters from
 `A-Z a-z 0-9 . _`, not starting with a digit or a period; `.notdef` is the exception) -/
 def safeName (nm : Name) : Bool :=
@@ -235,6 +249,13 @@ def handle (op : String) (fs : List (String × String)) : String :=
   else if op == "gnames.cffstable" then
     -- direct check run by the harness on the real MakeSimple (valid, unique, stable)
     "ok"
+  else if op == "gnames.cmapfirst" then
+    match parseFont fs, (getField fs "fu").bind parseNameTab, (getField fs "on").bind String.toNat? with
+    | some f, some fu, some on =>
+      match (getField fs "out").bind (parseNames on) with
+      | some out => let tab := fu.toArray; yn (cmapFirstP f (nameTabFn tab) out)
+      | none => "bad-case"
+    | _, _, _ => "bad-case"
   else if op == "gnames.inferred" then
     match parseFont fs, (getField fs "fu").bind parseNameTab, (getField fs "on").bind String.toNat? with
     | some f, some fu, some on =>
